@@ -297,7 +297,15 @@ def inspect_cache(cache, keys, defaults):
             continue
         o = fresh(("E", k), defaults)
         set_global(cache, defaults)
-        if o["kind"] != "state" or o["is_error"]:
+        # the admission rule from the independent reference interpreter (the implementation's own flags could be what is wrong)
+        ref = ref_flags(k, defaults)
+        if ref is not None and ref.get("failed"):
+            found.append(("served-failure:" + k, "cache serves data %s for %r which fails in the reference interpretation" % (served, k)))
+        elif ref is not None and ref.get("volatile"):
+            found.append(("served-volatile:" + k, "cache serves data %s for %r whose result is volatile (reference interpretation)" % (served, k)))
+        elif ref is not None and not ref.get("caching", True):
+            found.append(("served-nocache:" + k, "cache serves data %s for %r which is at or downstream of a command that switched caching off (reference interpretation)" % (served, k)))
+        elif o["kind"] != "state" or o["is_error"]:
             found.append(("served-failure:" + k, "cache serves data %s for %r whose fresh evaluation fails" % (served, k)))
         elif o["volatile"]:
             found.append(("served-volatile:" + k, "cache serves data %s for %r whose result is volatile" % (served, k)))
@@ -306,6 +314,23 @@ def inspect_cache(cache, keys, defaults):
         elif o["value"] != served:
             found.append(("stale:" + k, "cache serves %s for %r, a fresh evaluation gives %s" % (served, k, o["value"])))
     return found
+
+
+def ref_flags(q, defaults):
+    """failed / volatile / caching of a query according to harness/oracle_ref.py (None: outside its fragment)"""
+    import oracle_ref
+    from liquer.parser import parse
+    from liquer.commands import command_registry
+    calls = list(vocab.CALLS)
+    try:
+        r = oracle_ref.Ref(command_registry(), defaults).run(parse(q))
+    except Exception:
+        return None
+    finally:
+        vocab.CALLS[:] = calls
+    if "raised" in r or "error" in r:
+        return dict(failed=True)
+    return dict(failed=False, volatile=bool(r.get("volatile")), caching=r.get("caching", True))
 
 
 def set_global(cache, defaults):
